@@ -86,6 +86,9 @@ add('string_field_direct', 'struct PS { a: int, n: string }\nfn sf(p: PS) -> str
 add('import_call_in_shadow', 'from "census_m1.nano" import imp_seven\nfn via() -> int {\n return (imp_seven)\n}\nshadow via { assert (== (via) 7) }', '(println (via))', 'in-imp\n7\n')
 add('local_shadows_global_set', 'let nn: int = 10\nlet mut mm: int = 20\nfn lsg() -> int {\n let mut nn: int = 1\n set nn (+ nn 5)\n let mut mm: int = 2\n set mm (+ mm 7)\n return (+ nn mm)\n}\nshadow lsg { assert true }', '(println (lsg))\n(println nn)\n(println mm)', '15\n10\n20\n')
 add('for_var_shadows_global_const', 'let kk: int = 7', 'for kk in (range 0 3) {\n (println kk)\n}\n(println kk)', '0\n1\n2\n7\n')
+add('array_slice', '', 'let a: array<int> = [10, 20, 30, 40, 50]\nlet sl: array<int> = (array_slice a 1 3)\n(println (array_length sl))\n(println (at sl 0))\n(println (at sl 2))', '3\n20\n40\n')
+add('float_literal_precision', '', 'let x: float = 1.00000001\nlet y: float = 1.00000002\n(println (< x y))\n(println (== x y))', 'true\nfalse\n')
+add('for_range_end_once', 'fn tre(x: int) -> int {\n (println "end")\n return x\n}\nshadow tre { assert true }', 'for i in (range 0 (tre 3)) {\n (println i)\n}', 'end\n0\n1\n2\n')
 add('import_fnvalue', '', '(println "skip")', 'skip\n')
 
 
